@@ -16,7 +16,7 @@ import KonstVerif.Model.ArrayBuilder
   theorems establish for every reachable state.
 -/
 namespace Konst.ArrayConsumer
-open Konst.ArrayBuilder (readInit Event)
+open Konst.ArrayBuilder (readInit Event CloneRes panicAt)
 
 structure Consumer (α : Type) where
   n : Nat
@@ -81,12 +81,38 @@ def clone (fresh : Nat → α → α) (c : Consumer α) : Option (Consumer α) :
   | some l => some (cloneLoop fresh l 0 ⟨c.n, List.replicate c.n none, 0, c.n⟩)
   | none => none
 
+/-- the loop of `Clone::clone` with an element `Clone` that may PANIC (`none` = this call panics):
+    `for (i, elem) in self.as_slice().iter().cloned().enumerate()` — the copy is made BEFORE the write;
+    if `T::clone` panics, unwinding drops the half-built clone `this`, i.e. runs `Drop` on its CURRENT
+    `taken_front = 0`, `taken_back` (decremented once per element written so far): exactly the written
+    prefix `array[0 .. N - taken_back]`.  (This is why `taken_back` must be decremented per element:
+    a `taken_back` set to its final value before the loop would make `Drop` read unwritten slots.) -/
+def cloneLoopP (fresh : Nat → α → Option α) : List α → Nat → Consumer α → CloneRes (Consumer α) α
+  | [], _, this => .done this
+  | x :: r, i, this =>
+    match fresh i x with
+    | none =>
+      match dropped this with
+      | some d => .panicked d
+      | none => .ub
+    | some v =>
+      cloneLoopP fresh r (i + 1)
+        { this with slots := this.slots.set i (some v), takenBack := this.takenBack - 1 }
+
+/-- `Clone::clone` with a panicking element `Clone` -/
+def cloneP (fresh : Nat → α → Option α) (c : Consumer α) : CloneRes (Consumer α) α :=
+  match asSlice c with
+  | some l => cloneLoopP fresh l 0 ⟨c.n, List.replicate c.n none, 0, c.n⟩
+  | none => .ub
+
 /-! ### histories -/
 
 inductive Op where
   | next | nextBack
   | clone                      -- clone, drop the ORIGINAL, continue with the clone
   | cloneDrop                  -- clone, drop the CLONE, continue with the original
+  | clonePanic (j : Nat)       -- clone with an element `Clone` that panics on its `j`-th call (caught);
+                               -- a clone that completes (`j ≥ slice_len`) is dropped; continue with the original
 deriving Repr, DecidableEq
 
 /-- how a history ends -/
@@ -101,6 +127,7 @@ inductive Obs (α : Type) where
   | front (v : Option α)       -- result of `next`
   | back (v : Option α)        -- result of `next_back`
   | cloned (dropped : List α)  -- elements dropped with the consumer that was let go
+  | panicked (dropped : List α) -- `T::clone` panicked inside `clone`: the copies dropped by unwinding
   | ub
 deriving Repr
 
@@ -127,6 +154,14 @@ def step (fresh : Nat → α → α) (st : Consumer α × Nat) : Op → (Consume
       | some cl => ((st.1, st.2 + sliceLen st.1), .cloned cl)
       | none => (st, .ub)
     | none => (st, .ub)
+  | .clonePanic j =>
+    match cloneP (panicAt (fun i => fresh (st.2 + i)) j) st.1 with
+    | .panicked d => ((st.1, st.2 + d.length), .panicked d)
+    | .done c =>
+      match dropped c with
+      | some cl => ((st.1, st.2 + sliceLen st.1), .cloned cl)
+      | none => (st, .ub)
+    | .ub => (st, .ub)
 
 def run (fresh : Nat → α → α) : Consumer α × Nat → List Op → (Consumer α × Nat) × List (Obs α)
   | st, [] => (st, [])
